@@ -194,7 +194,7 @@ func (x Int8) Value() interface{} {
 }
 
 func (x Int8) Compare(y Comparable) int {
-	return int(int8(x) - y.Value().(int8))
+	return int(int8(x)) - int(y.Value().(int8))
 }
 
 func (x Int8) Int64() int64 {
@@ -242,7 +242,7 @@ func (x UInt8) Value() interface{} {
 }
 
 func (x UInt8) Compare(b Comparable) int {
-	c := uint8(x) - b.Value().(uint8)
+	c := int(uint8(x)) - int(b.Value().(uint8))
 	if c < 0 {
 		return -1
 	} else if c > 0 {
@@ -296,7 +296,7 @@ func (x Int16) Value() interface{} {
 }
 
 func (x Int16) Compare(y Comparable) int {
-	return int(int16(x) - y.Value().(int16))
+	return int(int16(x)) - int(y.Value().(int16))
 }
 
 func (x Int16) Int64() int64 {
@@ -344,7 +344,7 @@ func (x UInt16) Value() interface{} {
 }
 
 func (x UInt16) Compare(b Comparable) int {
-	c := uint16(x) - b.Value().(uint16)
+	c := int(uint16(x)) - int(b.Value().(uint16))
 	if c < 0 {
 		return -1
 	} else if c > 0 {
@@ -446,7 +446,7 @@ func (x UInt32) Value() interface{} {
 }
 
 func (x UInt32) Compare(b Comparable) int {
-	c := uint(x) - b.Value().(uint)
+	c := int64(uint(x)) - int64(b.Value().(uint))
 	if c < 0 {
 		return -1
 	} else if c > 0 {
@@ -500,10 +500,10 @@ func (x Int64) Value() interface{} {
 }
 
 func (x Int64) Compare(b Comparable) int {
-	c := int64(x) - b.Value().(int64)
-	if c < 0 {
+	y := b.Value().(int64)
+	if int64(x) < y {
 		return -1
-	} else if c > 0 {
+	} else if int64(x) > y {
 		return 1
 	}
 	return 0
@@ -554,10 +554,10 @@ func (x UInt64) Value() interface{} {
 }
 
 func (x UInt64) Compare(b Comparable) int {
-	c := uint64(x) - b.Value().(uint64)
-	if c < 0 {
+	y := b.Value().(uint64)
+	if uint64(x) < y {
 		return -1
-	} else if c > 0 {
+	} else if uint64(x) > y {
 		return 1
 	}
 	return 0
